@@ -29,6 +29,8 @@ pub struct Registry {
     pub clones: u64,
     pub drops: u64,
     pub creates: u64,
+    /// Clone::clone calls of `Pad`: a type WITHOUT drop glue whose Clone is nevertheless observable
+    pub plain_clones: u64,
     pub clone_calls_since_arm: u32,
     pub drop_calls_since_arm: u32,
     pub fault: FaultPlan,
@@ -72,6 +74,7 @@ pub struct RegSnapshot {
     pub clones: u64,
     pub drops: u64,
     pub creates: u64,
+    pub plain_clones: u64,
     pub faults_fired: u32,
 }
 
@@ -86,6 +89,7 @@ pub fn reg_snapshot() -> RegSnapshot {
             clones: r.clones,
             drops: r.drops,
             creates: r.creates,
+            plain_clones: r.plain_clones,
             faults_fired: r.faults_fired,
         }
     })
@@ -356,9 +360,16 @@ impl Col for Zno {
 // ---------------------------------------------------------------------------------------------
 
 /// Over-aligned (64 > the 16 that malloc guarantees), (u8, u64) with padding. (u128 in `Byf` covers alignment 16.)
-#[derive(Clone)]
 #[repr(align(64))]
 pub struct Pad(pub u8, pub u64);
+
+/// No Drop, no owning field — but a hand-written Clone that counts: "no drop glue" must not be mistaken for "is Copy".
+impl Clone for Pad {
+    fn clone(&self) -> Self {
+        REG.with(|r| r.borrow_mut().plain_clones += 1);
+        Pad(self.0, self.1)
+    }
+}
 
 impl Col for Pad {
     const TAG: u32 = 3;
